@@ -7,6 +7,7 @@ import (
 	"os"
 	"regexp"
 	"runtime/debug"
+	"sort"
 	"strings"
 	"time"
 
@@ -22,6 +23,7 @@ var adaptTimeout = 10 * time.Second
 
 type adaptRes struct {
 	json     []byte
+	dropped  string // the first warning that reports a json.Marshal failure inside caddyconfig.JSON / JSONModuleObject
 	warn     string // the adapter's warnings, in the order returned (observed only: the property speaks of the JSON)
 	err      error
 	panicked bool
@@ -96,19 +98,24 @@ func adaptText(text string) adaptRes {
 func adaptTextLoad(text string) adaptRes { return adaptTextOpts(text, nil) }
 
 func adaptTextOpts(text string, opts map[string]any) adaptRes {
-	var warn string
+	var warn, dropped string
 	r := guarded(func() ([]byte, error) {
 		ad := caddyfile.Adapter{ServerType: httpcaddyfile.ServerType{}}
 		b, ws, err := ad.Adapt([]byte(text), opts)
 		var sb strings.Builder
 		for _, w := range ws {
 			fmt.Fprintf(&sb, "%s:%d:%s:%s\n", w.File, w.Line, w.Directive, w.Message)
+			// caddyconfig.JSON and JSONModuleObject turn a json.Marshal error into a bare warning and return nil:
+			// the value is then missing from (or null in) the output
+			if dropped == "" && w.File == "" && w.Directive == "" && strings.HasPrefix(w.Message, "json: ") {
+				dropped = w.Message
+			}
 		}
 		warn = sb.String()
 		return b, err
 	})
 	if !r.timedOut {
-		r.warn = warn
+		r.warn, r.dropped = warn, dropped
 	}
 	return r
 }
@@ -224,5 +231,69 @@ func validate(js []byte) validRes {
 		return v
 	case <-time.After(60 * time.Second):
 		return validRes{stage: "hang", msg: "caddy.Validate did not return within 60s"}
+	}
+}
+
+// moduleArrays: JSON keys whose value is an array of module objects (or routes); an element can never be null.
+var moduleArrays = map[string]bool{"handle": true, "routes": true, "issuers": true, "listener_wrappers": true,
+	"handle_response": true, "get_certificate": true, "encoders": true, "policies": true}
+
+// nullModule walks the adapted JSON and returns the path of the first null that stands where a module object is
+// expected: an element of a module array or an inline module key.  (A null matcher VALUE is legitimate: `@m method`
+// with no argument adapts to `"method":null`, the nil slice, and loads.)
+func nullModule(js []byte) string {
+	var v any
+	if json.Unmarshal(js, &v) != nil {
+		return ""
+	}
+	var walk func(path string, key string, x any) string
+	walk = func(path, key string, x any) string {
+		switch t := x.(type) {
+		case map[string]any:
+			ks := make([]string, 0, len(t))
+			for k := range t {
+				ks = append(ks, k)
+			}
+			sort.Strings(ks)
+			for _, k := range ks {
+				if t[k] == nil && (k == "handler" || k == "transport" || k == "selection_policy" || k == "encoder" || k == "writer") {
+					return path + "." + k
+				}
+				if r := walk(path+"."+k, k, t[k]); r != "" {
+					return r
+				}
+			}
+		case []any:
+			for i, e := range t {
+				if e == nil && moduleArrays[key] {
+					return fmt.Sprintf("%s[%d]", path, i)
+				}
+				if r := walk(fmt.Sprintf("%s[%d]", path, i), key, e); r != "" {
+					return r
+				}
+			}
+		}
+		return ""
+	}
+	return walk("", "", v)
+}
+
+// checkDropped: an accepted adaptation must not have lost a module on the way to JSON.  caddyconfig.JSON /
+// JSONModuleObject report a value that json.Marshal refuses (a marshaler that writes invalid JSON, an unsupported
+// value) as a WARNING and return nil, so the adapter "succeeds" with `"handle":[null]` — which no server loads.
+func checkDropped(line, text string, r adaptRes, o *core.Outcome) {
+	if !r.accepted() {
+		return
+	}
+	if r.dropped != "" {
+		o.Tags = append(o.Tags, "adapt:dropped-module")
+		o.Failures = append(o.Failures, core.Failure{Case: line, Class: "adapter-dropped-unmarshalable-module",
+			What: fmt.Sprintf("the adapter accepted the text but could not marshal part of the config (it is missing from / null in the output): warning %q; input %q", clip(r.dropped, 300), clip(text, 400))})
+		return
+	}
+	if p := nullModule(r.json); p != "" {
+		o.Tags = append(o.Tags, "adapt:null-module")
+		o.Failures = append(o.Failures, core.Failure{Case: line, Class: "adapter-dropped-unmarshalable-module",
+			What: fmt.Sprintf("the adapted JSON has null where a module object is expected, at %s; input %q", p, clip(text, 400))})
 	}
 }
